@@ -1,9 +1,47 @@
 import RegexVerif.Sexp
+import RegexVerif.Model.Clock
 
 namespace RegexVerif.Driver
-open RegexVerif Sexp
+open RegexVerif Sexp Clock
 
-/-- protocol lines with head `c14` (stub) -/
-def handleC14 (_args : List Sexp) : String := "(unimplemented)"
+private def parseApi (e : Sexp) : Option Api :=
+  match e.head?, e.args with
+  | some "make", [a, b, c] => do some (Api.make (← a.nat?) (← b.int?) (← c.int?))
+  | some "stop", [a, b] => do some (Api.stop (← a.int?) (← b.int?))
+  | some "probe", [a] => do some (Api.probe (← a.int?))
+  | some "fin", [a, b] => do some (Api.fin (← a.nat?) (← b.int?))
+  | _, _ => none
+
+private def renderObs : Obs → Sexp
+  | .make id armed dl lo hi fresh => mk "make" [ofNat id, ofBool armed, ofInt dl, ofInt lo, ofInt hi, ofBool fresh]
+  | .stop t => mk "stop" [ofInt t]
+  | .probe r t => mk "probe" [ofBool r, ofInt t]
+  | .fin id k r => mk "fin" [ofNat id, ofBool k, ofBool r]
+
+/-- `(c14 sim (period P) (init started startNs now) (events e…))` → `(ok obs…)`;
+    `(c14 dticks period d)` → `(ok deadlineTicks oldDeadlineTicks)` -/
+def handleC14 (args : List Sexp) : String :=
+  match args with
+  | mode :: rest =>
+    match mode.sym? with
+    | some "dticks" =>
+      match rest with
+      | [a, b] =>
+        match a.int?, b.int? with
+        | some period, some d => toString (mk "ok" [ofInt (deadlineTicks period d), ofInt (oldDeadlineTicks period d)])
+        | _, _ => "(bad-op)"
+      | _ => "(bad-op)"
+    | some "sim" =>
+      let period := ((lookup "period" rest).bind (·.head?) |>.bind (·.int?))
+      let init := (lookup "init" rest).bind (fun xs => xs.mapM Sexp.int?)
+      let evs := (lookup "events" rest).bind (fun xs => xs.mapM parseApi)
+      match period, init, evs with
+      | some period, some [st, startNs, now], some evs =>
+        let p : Params := { period := period, eps := 0, slop := goSlop }
+        let s0 := if st = 0 then { State.init with now := now, lastWrite := now } else State.stopped startNs now
+        toString (mk "ok" ((simulate p (s0, []) evs).map renderObs))
+      | _, _, _ => "(bad-op)"
+    | _ => "(bad-op)"
+  | _ => "(bad-op)"
 
 end RegexVerif.Driver
